@@ -534,7 +534,9 @@ func (vfs *OrefaFS) MkdirAll(path string, perm fs.FileMode) error {
 		dirName, _ = avfs.SplitAbs(vfs, dirName)
 	}
 
-	for _, absPath = range ds {
+	// ds goes from the deepest to the topmost missing directory : create them from the top.
+	for i := len(ds) - 1; i >= 0; i-- {
+		absPath = ds[i]
 		_, fileName := avfs.SplitAbs(vfs, absPath)
 
 		parent = vfs.createDir(parent, absPath, fileName, perm)
